@@ -45,6 +45,8 @@ def gen_input(rnd, kind, max_n=4, idx=0):
         inp['with_locking_script'] = True
     if kind in ('p2pkh', 'p2pkh_u', 'p2wpkh', 'p2sh_p2wpkh') and rnd.random() < 0.15:
         inp['omit_script_type'] = True    # only witness_type is given; the library infers the script type
+    if kind in ('p2pkh', 'p2pkh_u', 'p2wpkh', 'p2sh_p2wpkh') and rnd.random() < 0.2:
+        inp['addr_only'] = True           # declared by address only (no keys); the keys arrive with sign()
     return inp
 
 
@@ -137,6 +139,13 @@ def prevout_of(inp):
         raise ValueError(kind)
     return {'spk': spk, 'amount': inp['value'], 'script_code': code, 'segwit': kind in SEGWIT_KINDS, 'pubs': pubs,
             'redeem': redeem}
+
+
+def prevout_address(inp, network):
+    try:
+        return chain.address_for_script(network, prevout_of(inp)['spk'])
+    except Exception:
+        return None
 
 
 def out_script(o, network):
@@ -238,6 +247,12 @@ def build(spec, private_in_inputs=True, route='add_input'):
             kw['locking_script'] = prevout_of(inp)['spk']
         if inp.get('omit_script_type'):
             kw.pop('script_type', None)
+        if inp.get('addr_only') and not private_in_inputs:
+            addr = prevout_address(inp, network)
+            if addr:
+                keys = None
+                kw['address'] = addr
+                kw.pop('locking_script', None)
         t.add_input(inp['txid'], inp['n'], keys=keys, sequence=inp['seq'], value=inp['value'],
                     compressed=inp['compressed'], **kw)
     for o in spec['outs']:
